@@ -66,7 +66,7 @@ fn variants(t: &mut Tape, b: &Lzma2Built, full: bool) -> Vec<(Vec<u8>, &'static 
                 }
                 before += prev.unpacked_len as i64;
             }
-            let mut us = vec![u - 1, u + 1, u - 7, u + 300, u / 2, u + 65536, 1, u + 2, u - before, u + before];
+            let mut us = vec![u - 1, u + 1, u - 7, u + 300, u / 2, u + 65536, u - 65536, u + 131072, u ^ 0x10000, 1, u + 2, u - before, u + before];
             us.retain(|x| *x >= 1 && *x != u && *x <= (1 << 21));
             us.sort();
             us.dedup();
@@ -240,7 +240,7 @@ impl Property for C17 {
         "fault_enumeration"
     }
     fn rule(&self) -> &'static str {
-        "per seeded valid LZMA2 chunk sequence, at every chunk: control byte := each value 0x03-0x7F; property byte := each value >= 225 and each value with lc+lp > 4; declared compressed size lowered (-1,-2,-3, half, 5, 1); declared uncompressed size ±1, ±many; uncompressed chunk cut short at several offsets or declaring more than is left; input cut at every chunk boundary and before the end byte (thorough: every value; quick: 6 sampled values per field); plus chunks that end in an end-of-stream marker short of their declared size. One evaluation = one mutated stream through lzma2_decompress / raw::Lzma2Decoder / xz_decompress; a lenient reference decoder that knows exactly the listed rules decides must-reject; distinct by scenario hash; all non-trivial"
+        "per seeded valid LZMA2 chunk sequence, at every chunk: control byte := each value 0x03-0x7F; property byte := each value >= 225 and each value with lc+lp > 4; declared compressed size lowered (-1,-2,-3, half, 5, 1); declared uncompressed size ±1, ±many, ±65536 (also on base chunks of 65536*h+{-1,0,1} bytes, the boundaries of the size field); uncompressed chunk cut short at several offsets or declaring more than is left; input cut at every chunk boundary and before the end byte (thorough: every value; quick: 6 sampled values per field); plus chunks that end in an end-of-stream marker short of their declared size. One evaluation = one mutated stream through lzma2_decompress / raw::Lzma2Decoder / xz_decompress; a lenient reference decoder that knows exactly the listed rules decides must-reject; distinct by scenario hash; all non-trivial"
     }
     fn runs(&self, tier: Tier) -> u64 {
         match tier {
@@ -255,7 +255,13 @@ impl Property for C17 {
         ]
     }
     fn run(&self, t: &mut Tape, ctx: &mut Ctx) -> Vec<Violation> {
+        // 1 run in 16: chunk sizes on the boundaries of the size field
+        let boundary = t.below(16) == 0;
         let b = loop {
+            if boundary {
+                ctx.stats.hit("arm.chunk_sizes_on_the_16_bit_field_boundary");
+                break gen_lzma2_size_boundary(t);
+            }
             let b = gen_lzma2(t, 1500, true);
             if !b.chunks.is_empty() || t.used() > 100_000 {
                 break b;
